@@ -19,6 +19,9 @@ def mRow (r : Row) : Row := { r with closeTick := -r.closeTick, in0 := r.in1, in
 def mState (s : State) : State :=
   { s with positions := s.positions.map mPos, lastTick := s.lastTick.map (fun t => -t), row := s.row.map mRow }
 
+/-- the economic state: everything but the (write-only) action log -/
+def stripLog (s : State) : State := { s with actions := [] }
+
 /-- the mirror law of the numeric kernel: `ms` maps a sqrt price of the pool to the sqrt price of its mirror
     (for the concrete kernel `ms s ≈ 2^192 / s`, and the law holds only approximately — see C09_kernel_*) -/
 structure KernMirror (K K' : Kern) (p : Pool) (ms : Nat → Nat) : Prop where
@@ -65,11 +68,14 @@ def Op.mirrorable : Op → Bool
   | .transferIn .. => true
 
 /-- results: the two leading numbers of an add are the position key -/
-def mResult (op : Op) (v : List Rat) : List Rat :=
-  match op, v with
+def mKeyResult : List Rat → List Rat
+  | [lo, up, x, y, l] => [-up, -lo, x, y, l]
+  | v => v
+
+def mResult : Op → List Rat → List Rat
   | .addRaw .., [lo, up, u0, u1, l] => [-up, -lo, u1, u0, l]
-  | .addByTick .., [lo, up, b, q, l] => [-up, -lo, b, q, l]
-  | .addByPrice .., [lo, up, b, q, l] => [-up, -lo, b, q, l]
+  | .addByTick .., v => mKeyResult v
+  | .addByPrice .., v => mKeyResult v
   | _, v => v
 
 end Demeter.Uni
